@@ -18,6 +18,7 @@ import random
 
 from harness import core
 
+NPROC = 8          # worker processes: each pays import + JIT (about 20 s CPU), the jobs themselves are cheap
 STATS = ["mean", "max", "min", "range", "std", "var", "sum"]
 VALS4 = [0, 1, 2, "nan"]
 EXCLS = [["nan"], [0], [0, "nan"], [1, 2]]
@@ -301,7 +302,7 @@ def badkernel_jobs():
             for w in ("ndarray", "list")]
 
 
-def arrange(rng, jobs, nproc=16):
+def arrange(rng, jobs, nproc=NPROC):
     """run_jobs gives job i to process i % nproc.  Jobs with a non-default dtype need their own JIT
     specialisations (0.5 s each): keep them all on process 0 so that only one process compiles them."""
     variant = [j for j in jobs if j.get("dtype") or j.get("kdtype")]
@@ -370,6 +371,8 @@ def run(ctx):
     rng = random.Random(ctx.seed * 15485863 + 9)
     thorough = ctx.tier == "thorough"
     stats_set = core.Raw("{%s}" % ", ".join('"%s"' % s for s in STATS))
+    if os.environ.get("VERIF_C09_STAGE") == "R":      # development aid: replay only (mutation testing)
+        return replay(ctx, rng)
 
     # ---------------------------------------------------------------- M : Focal.tla
     inv_f = ["BufferIsPositionedWindow", "BufferHoldsExactlyTheWindow", "StatsAreStatsOfTheWindow", "StatLemmas"]
@@ -386,10 +389,9 @@ def run(ctx):
     if thorough:
         ctx.model_check("Focal", focal_cfg([(2, 2), (1, 3), (3, 1)], [(1, 3), (3, 1), (3, 3)], KFAMILY, "all"),
                         "values_small_all_masks")
-        ctx.model_check("Focal", focal_cfg([(2, 3), (3, 2)], [(1, 3), (3, 1)], KFAMILY + K33_SEL, "all"),
-                        "values_2x3")
-        ctx.model_check("Focal", focal_cfg([(4, 4), (3, 4)], [(1, 3), (3, 1)], KFAMILY + K33_SEL, "sparse",
-                                           vals=[1, 2, "nan"]), "values_4x4_sparse")
+        ctx.model_check("Focal", focal_cfg([(2, 3)], [(1, 3)], KFAMILY[3:] + K33_SEL, "all"), "values_2x3")
+        ctx.model_check("Focal", focal_cfg([(4, 4)], [(3, 1)], KFAMILY[:3] + KFAMILY[6:] + K33_SEL, "sparse",
+                                           vals=[1, "nan"]), "values_4x4_sparse")
     for mut, inv in (("transpose", "BufferIsPositionedWindow"), ("mirror_rows", "BufferHoldsExactlyTheWindow"),
                      ("mirror_cols", "BufferIsPositionedWindow"), ("half_up", "BufferIsPositionedWindow"),
                      ("swap_half", "BufferHoldsExactlyTheWindow"), ("noclip", "BufferHoldsExactlyTheWindow"),
@@ -427,7 +429,8 @@ def run(ctx):
     ctx.model_check("FocalConv", conv_cfg([(1, 3), (3, 1), (2, 3), (1, 4)], VALS4), "conv_small")
     ctx.model_check("FocalConv", conv_cfg([(3, 3)], [0, 1, "nan"] if not thorough else [0, 1, 2]), "conv_3x3")
     if thorough:
-        ctx.model_check("FocalConv", conv_cfg([(3, 4)], [0, 1, "nan"]), "conv_3x4")
+        ctx.model_check("FocalConv", conv_cfg([(2, 4), (4, 2)], [0, 1, "nan"]), "conv_2x4")
+        ctx.model_check("FocalConv", conv_cfg([(3, 4)], [0, 1]), "conv_3x4")
     for mut, inv in (("flip_kernel", "ConvIsWeightedWindowSum"), ("clip_border", "NaNWhereWindowLeaves"),
                      ("skip_nan", "ConvIsWeightedWindowSum"), ("swap_half", "ConvIsWeightedWindowSum"),
                      ("zero_weight_hides_nan", "ConvIsWeightedWindowSum")):
@@ -448,7 +451,7 @@ def run(ctx):
     ctx.model_check("Hotspots", hot_cfg("raster", shapes=((3, 3),), vals=(0, 1, 2) if thorough else (0, 1, "nan"),
                                         kernels=hk if thorough else hk[:2]), "raster_3x3")
     if thorough:
-        ctx.model_check("Hotspots", hot_cfg("raster", shapes=((3, 4),), vals=(0, 2, "nan")), "raster_3x4")
+        ctx.model_check("Hotspots", hot_cfg("raster", shapes=((3, 4), (4, 3)), vals=(0, 2)), "raster_3x4")
     for mut, inv in (("p233", "LadderIsThresholdForm"), ("ge", "LadderIsThresholdForm"), ("abs_lost", "LadderOdd"),
                      ("t95", "LadderIsThresholdForm")):
         ctx.model_check("Hotspots", hot_cfg("ladder", mut=mut, inv=[inv]), "neg_" + mut, expect="violation")
@@ -456,13 +459,17 @@ def run(ctx):
     if os.environ.get("VERIF_C09_STAGE") == "M":      # development aid: model checking only
         return
 
+    replay(ctx, rng)
+
+
+def replay(ctx, rng):
     # ---------------------------------------------------------------- R / T : one fan-out over the real code
     fam = masks(1, 3) + masks(3, 1) + masks(3, 3) + KFAMILY
     jobs = (apply_window_jobs(rng, ctx.tier, fam) + stats_jobs(rng, ctx.tier, fam, K33_SEL + KFAMILY[:6])
             + reducer_jobs(rng, ctx.tier, fam) + mean_jobs(rng, ctx.tier) + conv_jobs(rng, ctx.tier)
             + hot_jobs(rng, ctx.tier) + badkernel_jobs())
     jobs = arrange(rng, jobs)
-    cases = core.run_jobs("focal_worker", jobs, nproc=16)
+    cases = core.run_jobs("focal_worker", jobs, nproc=NPROC)
     by = {}
     for c in cases:
         if "error" in c:
